@@ -58,6 +58,21 @@ CLAIMED["C04"] = dict(
     design="§4 C04",
 )
 
+CLAIMED["C03"] = dict(
+    text="Lean 4 theorems: C03_walk (for every directory tree of any depth and width, every VCS oracle and flag combination, "
+         "the model of the pruned os.walk in iter_files/is_path_ignored yields exactly the recursively specified covered "
+         "files), C03_pruned, C03_symlink, C03_empty_file, C03_subset. The name rules are the regular expressions of the "
+         "source, translated to the verified regex fragment by gen_tables.py on every run. Tied to the code by an exhaustive "
+         "name-rule differential, random trees on disk through the real iter_files / lint / spdx / annotate --recursive, and "
+         "random Git repositories judged by `git check-ignore`.",
+    note="Partial: Git is an oracle (check-ignore, .gitmodules), os.walk/stat are modelled by the tree type; the equivalence "
+         "of the generated name patterns with the property's name clauses is checked exhaustively to a bound plus a boundary "
+         "list (not yet a theorem). Known findings: CAL-1.0/SHL-2.1 workaround names; ignored files inside wholly untracked "
+         "directories. Names containing a newline are a documented boundary. Only Git is installed.",
+    technique="Lean 4 proof (mutual structural induction over the tree) + generated regex tables + real-tree and real-Git differential",
+    design="§4 C03",
+)
+
 NOT_YET = {}
 
 
